@@ -686,10 +686,13 @@ func (in *Interp) visitInstr(fr *frame, instr ssa.Instruction) continuation {
 
 	case *ssa.Defer:
 		fn, args := in.prepareCall(fr, &instr.Call)
+		target := fr
 		if instr.DeferStack != nil {
-			panic(unsupported{"defer with explicit DeferStack (range-over-func)"})
+			if ref, ok := fr.get(instr.DeferStack).(*deferStackRef); ok && ref != nil {
+				target = ref.fr
+			}
 		}
-		fr.defers = &deferred{fn: fn, args: args, tail: fr.defers, pos: instr.Pos()}
+		target.defers = &deferred{fn: fn, args: args, tail: target.defers, pos: instr.Pos()}
 
 	case *ssa.Go:
 		fn, args := in.prepareCall(fr, &instr.Call)
